@@ -186,11 +186,11 @@ theorem text_leaf {f : Forest} (w : f.W) {x : Nat} {s : Str} (e : f.textOf x = s
 theorem merge_spec {f : Forest} (w : f.W) {target src : Nat} {a b : Str} (v : Str)
     (ht : f.textOf target = some a) (hs : f.textOf src = some b) :
     ((f.setValue target (.text v)).spliceOut src).W ∧
-    Frame f ((f.setValue target (.text v)).spliceOut src) [src] [src, target] := by
+    Frame f ((f.setValue target (.text v)).spliceOut src) [src] := by
   obtain ⟨tt, htg, htk, _⟩ := text_leaf w ht
   have w0 : (f.setValue target (.text v)).W := setValue_W w target _ (fun t e => by
     rw [htg] at e; injection e with e; subst e; exact Or.inl htk)
-  have fr0 := setValue_frame f target (.text v)
+  have fr0 := setValue_frame_text f ht v
   have hs0 : ∃ s', (f.setValue target (.text v)).textOf src = some s' := by
     unfold textOf
     rw [setValue_value?]
@@ -201,51 +201,47 @@ theorem merge_spec {f : Forest} (w : f.W) {target src : Nat} {a b : Str} (v : St
   obtain ⟨ts, hsg, hsk, hsh⟩ := text_leaf w0 hs0
   obtain ⟨w1, _, fr1⟩ := spliceOut_spec w0 hsg (fun _ => by rw [hsk]; exact Nat.zero_le _)
   rw [hsh] at fr1
-  refine ⟨w1, (fr0.trans fr1).mono ?_ ?_⟩
-  · intro x hx; simpa using hx
-  · intro x hx; simp only [List.mem_append, List.mem_singleton] at hx
-    rcases hx with h | h <;> simp [h]
+  exact ⟨w1, (fr0.trans fr1).mono (fun x hx => by simpa using hx)⟩
 
 theorem removeConsolidate_spec {f : Forest} (w : f.W) (prev next : Option Nat) :
     (f.removeConsolidate prev next).1.W ∧
     ((f.removeConsolidate prev next).2 = false → (f.removeConsolidate prev next).1 = f) ∧
     ∃ P, (∀ x ∈ P, next = some x ∧ (f.textOf x).isSome = true ∧
         (f.removeConsolidate prev next).2 = true ∧ ∃ p, prev = some p) ∧
-      Frame f (f.removeConsolidate prev next).1 P (P ++ prev.toList) := by
+      Frame f (f.removeConsolidate prev next).1 P := by
   unfold removeConsolidate
   cases hc : f.consolidation with
-  | false => exact ⟨w, fun _ => rfl, [], by simp, Frame.refl _ _ _⟩
+  | false => exact ⟨w, fun _ => rfl, [], by simp, Frame.refl _ _⟩
   | true =>
     simp only [Bool.not_true, Bool.false_eq_true, if_false]
     cases prev with
-    | none => exact ⟨w, fun _ => rfl, [], by simp, Frame.refl _ _ _⟩
+    | none => exact ⟨w, fun _ => rfl, [], by simp, Frame.refl _ _⟩
     | some p =>
       cases next with
-      | none => exact ⟨w, fun _ => rfl, [], by simp, Frame.refl _ _ _⟩
+      | none => exact ⟨w, fun _ => rfl, [], by simp, Frame.refl _ _⟩
       | some n =>
         simp only
         cases hp : f.textOf p with
-        | none => exact ⟨w, fun _ => rfl, [], by simp, Frame.refl _ _ _⟩
+        | none => exact ⟨w, fun _ => rfl, [], by simp, Frame.refl _ _⟩
         | some ps =>
           cases hn : f.textOf n with
-          | none => exact ⟨w, fun _ => rfl, [], by simp, Frame.refl _ _ _⟩
+          | none => exact ⟨w, fun _ => rfl, [], by simp, Frame.refl _ _⟩
           | some ns =>
             obtain ⟨w1, fr⟩ := merge_spec w (ps ++ ns) hp hn
-            refine ⟨w1, (fun h => by cases h), [n], ?_, fr.mono (fun _ h => h) ?_⟩
-            · intro x hx; simp only [List.mem_singleton] at hx; subst hx; simp [hn]
-            · intro x hx; simpa using hx
+            refine ⟨w1, (fun h => by cases h), [n], ?_, fr⟩
+            intro x hx; simp only [List.mem_singleton] at hx; subst hx; simp [hn]
 
 theorem addConsolidate_spec {f : Forest} (w : f.W) (node : Nat) (prev next : Option Nat) :
     (f.addConsolidate node prev next).1.W ∧
     ((f.addConsolidate node prev next).2 = false → (f.addConsolidate node prev next).1 = f) ∧
-    Frame f (f.addConsolidate node prev next).1 [node] (node :: (prev.toList ++ next.toList)) := by
+    Frame f (f.addConsolidate node prev next).1 [node] := by
   unfold addConsolidate
   cases hc : f.consolidation with
-  | false => exact ⟨w, fun _ => rfl, Frame.refl _ _ _⟩
+  | false => exact ⟨w, fun _ => rfl, Frame.refl _ _⟩
   | true =>
     simp only [Bool.not_true, Bool.false_eq_true, if_false]
     cases ha : f.textOf node with
-    | none => exact ⟨w, fun _ => rfl, Frame.refl _ _ _⟩
+    | none => exact ⟨w, fun _ => rfl, Frame.refl _ _⟩
     | some added =>
       simp only
       have viaNext : (match next with
@@ -266,19 +262,16 @@ theorem addConsolidate_spec {f : Forest} (w : f.W) (node : Nat) (prev next : Opt
           | some n => (match f.textOf n with
               | some ns => ((f.setValue n (.text (added ++ ns))).spliceOut node, true)
               | none => (f, false))
-          | none => (f, false)).1 [node] (node :: (prev.toList ++ next.toList)) := by
+          | none => (f, false)).1 [node] := by
         cases next with
-        | none => exact ⟨w, fun _ => rfl, Frame.refl _ _ _⟩
+        | none => exact ⟨w, fun _ => rfl, Frame.refl _ _⟩
         | some n =>
           simp only
           cases hn : f.textOf n with
-          | none => exact ⟨w, fun _ => rfl, Frame.refl _ _ _⟩
+          | none => exact ⟨w, fun _ => rfl, Frame.refl _ _⟩
           | some ns =>
             obtain ⟨w1, fr⟩ := merge_spec w (added ++ ns) hn ha
-            refine ⟨w1, (fun h => by cases h), fr.mono (fun _ h => h) ?_⟩
-            intro x hx
-            simp only [List.mem_cons, List.not_mem_nil, or_false] at hx
-            rcases hx with h | h <;> simp [h]
+            exact ⟨w1, (fun h => by cases h), fr⟩
       cases prev with
       | none => exact viaNext
       | some p =>
@@ -287,10 +280,7 @@ theorem addConsolidate_spec {f : Forest} (w : f.W) (node : Nat) (prev next : Opt
         | none => exact viaNext
         | some ps =>
           obtain ⟨w1, fr⟩ := merge_spec w (ps ++ added) hp ha
-          refine ⟨w1, (fun h => by cases h), fr.mono (fun _ h => h) ?_⟩
-          intro x hx
-          simp only [List.mem_cons, List.not_mem_nil, or_false] at hx
-          rcases hx with h | h <;> simp [h]
+          exact ⟨w1, (fun h => by cases h), fr⟩
 
 end Forest
 end XotModel
